@@ -35,7 +35,7 @@ func init() {
 		Doc:      "lib/file creates files only through go-file Create (O_CREATE|O_EXCL + flock) and opens existing ones only through go-file's Open*; no os.Create/OpenFile/WriteFile/CreateTemp, no generic go-file Open with caller-chosen flags; every ControlFile is built by NewControlFile from the descriptor and the path of one go-file Create call",
 		Controls: []string{"CtlControlFileViaOpenFile"},
 		Run:      ruleLock1})
-	Register(&Rule{ID: "R-LOCK-2", Props: []string{"C09"}, Floor: 4,
+	Register(&Rule{ID: "R-LOCK-2", Props: []string{"C09", "C11"}, Floor: 4,
 		Doc:      "writer protocol (functions that create the LockFilePath file and no read-lock file): the create is reachable only through the not-exists edges of a LockExists and of an RLockExists test; after the create every return that is not an error has passed a second RLockExists test; the exists edge of that test releases the new lock file and returns an error",
 		Controls: []string{"CtlLockWithoutRecheck"},
 		Run:      ruleLock2})
